@@ -217,7 +217,7 @@ def agg_fields(term, adt_suffix=None):
 def conjunction_of(body):
     """for a boolean function of the shape `p1(..) && p2(..) && ...`: the set of rendered predicate calls whose
     conjunction is the result, or None if the function has another shape"""
-    cases = body.local_cases(0)
+    cases = body.expanded_cases(0)
     true_cases = [(g, t) for g, t, bi in cases if not (t[0] == "const" and t[1] in ("0", "false"))]
     if len(true_cases) != 1:
         return None
